@@ -1549,3 +1549,19 @@ def WmSt.advance (w : WmSt) (src : String) (t : Int) : WmSt :=
     ({ w with sources := upsert src sw' w.sources }).recompute
 
 end Varpulis.Ckpt
+
+/-! ## concrete states used by the witness theorems and non-vacuity examples of Props/C19 -/
+namespace Varpulis.Ckpt.Witness
+open Varpulis.Ckpt
+
+def ev (id : Int) : Event := { etype := "T", ts := id * 1000000000, data := [("id", .int id)] }
+
+def bEv : Event := { etype := "B", ts := 5, data := [] }
+
+/-- a run in the middle of `A -> all B -> C` (no deferred predicate) -/
+def midRun : Run :=
+  { currentState := 2, stack := [(bEv, some "b")], captured := [("b", bEv)], startedAt := none, deadline := none,
+    partitionKey := none, invalidated := false, pendingNegs := [], andState := none,
+    kleene := some { events := [bEv], aliases := [some "b"], deferred := none } }
+
+end Varpulis.Ckpt.Witness
